@@ -32,7 +32,10 @@ ASSUMPTIONS = [
 ]
 
 SPECIAL = [':-soup-contains("x y", z)', ':-soup-contains-own(x)', ':nth-child(2n+1)', ':nth-last-child(-n+3 of p)', ':nth-of-type(even)',
-           ':nth-last-of-type(3)', ':lang(en, "de-*")', ':dir(rtl)', 'p:lang(fr):nth-child(odd)', 'a:-soup-contains(t):dir(ltr)']
+           ':nth-last-of-type(3)', ':lang(en, "de-*")', ':dir(rtl)', 'p:lang(fr):nth-child(odd)', 'a:-soup-contains(t):dir(ltr)',
+           # the same names spelled with escapes (whatever a tokenizer keeps per match must not be shared between threads)
+           'p:l\\61ng(en)', ':nth-\\63hild(2)', ':-soup-c\\6fntains(x)', 'li:\\6c ang("*-US")', ':\\6eth-last-child(2 of li)', ':d\\69r(ltr)',
+           ':-soup-contains-\\6fwn(t)']
 ORDINARY = ['div > p.x[title~=y]', ':is(a, b):not(.c)', 'p:has(> span + b)', '#i1, .k ~ li', ':root:empty', ':checked, :default']
 CUSTOMS = [':--al > b', 'p:--al:--nest', ':is(:--nest, i)']
 QUERIES = [':lang(en)', ':default', ':indeterminate', ':dir(rtl)', 'p:nth-child(odd)', ':-soup-contains(t)', ':checked ~ :in-range', 'li:lang("*-US")']
